@@ -550,7 +550,10 @@ def r10_security_parameters(chk: Check) -> None:
             tgt = st.target if isinstance(st, ast.AnnAssign) else (st.targets[0] if isinstance(st, ast.Assign) else None)
             if isinstance(tgt, ast.Name) and getattr(st, "value", None) is not None:
                 vals[tgt.id] = st.value  # type: ignore[assignment]
-        got_l = {const_str(e) for e in getattr(vals.get("api_key_locations"), "elts", [])} if "api_key_locations" in vals else None
+        lv = vals.get("api_key_locations")
+        if isinstance(lv, ast.Call) and isinstance(lv.func, ast.Name) and lv.func.id in ("tuple", "frozenset", "set", "list") and len(lv.args) == 1:
+            lv = lv.args[0]
+        got_l = {const_str(e) for e in lv.elts} if isinstance(lv, (ast.Tuple, ast.List, ast.Set)) and all(const_str(e) for e in lv.elts) else None
         chk.decide(None if got_l is None else got_l == locs, "C08.R10", f"{SEC}:{cname}", f"{cname}.api_key_locations = {sorted(locs)}",
                    f"api keys are accepted in {sorted(got_l or [])}: a documented api key in {sorted(locs - (got_l or set()))} gets no parameter / one in {sorted((got_l or set()) - locs)} is invented", f"{SEC}:{cls.lineno}")
         got_h = const_str(vals["http_security_name"]) if "http_security_name" in vals else None
